@@ -57,7 +57,7 @@ fn with_pool<T>(f: impl FnOnce(&mut Vec<Runner>) -> T) -> T {
         let mut p = p.borrow_mut();
         if p.is_empty() {
             for c in &CFGS {
-                let path = format!("/verif/work/target-cfg/{}/{}/cfgrun", c.name, c.profile);
+                let path = format!("{}/work/target-cfg/{}/{}/cfgrun", verif_root().display(), c.name, c.profile);
                 let mut child = match Proc::new(&path).stdin(Stdio::piped()).stdout(Stdio::piped()).stderr(Stdio::null()).spawn() {
                     Ok(c) => c,
                     Err(e) => {
